@@ -240,7 +240,10 @@ func (g *Gen) run() {
 				}
 			}
 			if !found {
-				g.oblige("bind", fmt.Sprintf("loop %d", ord), token.NoPos, "true", "false")
+				// invariants and variants are proof aids for a loop; when the loop no longer exists they are moot (every
+				// postcondition, call-site assertion and safety obligation of the function is still generated and must
+				// discharge without them), so this is reported as a note, not as a failed obligation
+				g.notes = append(g.notes, fmt.Sprintf("contract clauses for loop %d dropped: the function has no such loop any more", ord))
 			}
 		}
 	}
